@@ -43,17 +43,28 @@ func TestVerifC03PolicyMatchOrder(t *testing.T) {
 		stats := &c03CheckStats{}
 		checks := 0
 
-		flushAndCheck := func() {
+		truncated := false
+		// flushAndCheck returns false when the case was cut short at a known finding.
+		flushAndCheck := func() bool {
+			if h.stalePendingAtFlush(g.inSync) {
+				stats.hit("known:" + c03SigStalePending)
+				if ev.Known(c03SigStalePending) {
+					rec.Excluded(c03SigStalePending)
+					truncated = true
+					return false
+				}
+			}
 			g.flush()
 			h.log = append(h.log, "flush")
 			h.kinds = append(h.kinds, "F")
 			if !g.inSync {
-				return
+				return true
 			}
 			checks++
 			if msg := c03CheckFold(t, h.valid, g.fold, stats); msg != "" {
 				t.Fatalf("C03 violated after flush #%d:\n%s\ndatastore now:\n%shistory:\n%s", checks, msg, h.valid.describe(), h.history())
 			}
+			return true
 		}
 		inSync := func() {
 			if !g.inSync {
@@ -71,8 +82,8 @@ func TestVerifC03PolicyMatchOrder(t *testing.T) {
 		}
 
 		// Bootstrap: a few sets so that most cases start from a populated datastore.
-		nBoot := rapid.IntRange(0, 12).Draw(t, "numBootstrapSets")
-		bootWeights := []string{"pol", "pol", "pol", "pol", "tier", "tier", "tier", "plbl", "plbl", "wep", "wep", "hep", "prul"}
+		nBoot := rapid.IntRange(0, 16).Draw(t, "numBootstrapSets")
+		bootWeights := []string{"pol", "pol", "pol", "pol", "pol", "tier", "tier", "tier", "plbl", "plbl", "plbl", "wep", "wep", "wep", "hep", "hep", "prul"}
 		for nBoot > 0 {
 			n := rapid.IntRange(1, nBoot).Draw(t, "bootBatchSize")
 			as, _ := h.genBatch(n, bootWeights, 0)
@@ -83,7 +94,7 @@ func TestVerifC03PolicyMatchOrder(t *testing.T) {
 			flushAndCheck()
 		}
 
-		for i := 1; i <= nSteps; i++ {
+		for i := 1; i <= nSteps && !truncated; i++ {
 			n := rapid.IntRange(1, 3).Draw(t, "batchSize")
 			as, _ := h.genBatch(n, c03Weights, 0)
 			g.send(as)
@@ -94,8 +105,10 @@ func TestVerifC03PolicyMatchOrder(t *testing.T) {
 				flushAndCheck()
 			}
 		}
-		inSync()
-		flushAndCheck()
+		if !truncated {
+			inSync()
+			flushAndCheck()
+		}
 
 		nontrivial := stats.classes["order-tie"] || stats.classes["label-override"] || stats.classes["nil-tier-order"]
 		classes := make([]string, 0, len(stats.classes))
